@@ -5,6 +5,10 @@ import DryocVerif.Properties.C02
 import DryocVerif.Properties.C06
 import DryocVerif.Properties.C10
 import DryocVerif.Properties.C16
+import DryocVerif.Properties.C09
+import DryocVerif.Proofs.RawExtra
+import DryocVerif.Proofs.OpenRawExtra
+import DryocVerif.Proofs.SignVectors
 /-
 C04 — no attacker-facing function panics.
 
@@ -17,6 +21,15 @@ any attacker byte is looked at.
 * secretstream `pull` / `push` / `DryocStream`: proved here;
 * secretbox / box / sealed box / object layer: re-exported from C02 (statements written out);
 * signatures: re-exported from C06; password-hash strings: from C10; serde: from C16.
+
+The models named above (`pull`, `fromBytes`, `signOpen`, `parse`, …) are TOTAL functions on lists (truncated
+`ℕ` subtraction, `take`/`drop` behind a copied guard): several of their `…_never_panics` theorems hold by
+construction.  The second half of this file ("CODE-SHAPED models") therefore states the property for
+`…Raw` models in which every Rust operation that can panic — `a - b`, `a + b`, `x[i]`, `&x[a..b]`,
+`split_at`, `copy_from_slice`, `unwrap`/`expect`, `apply_keystream` — is an explicit `Outcome.panic` branch
+(`Model/RawOps.lean`, `Model/SecretStreamRaw.lean`, `Model/OpenRaw.lean`), proves `…Raw = total model`
+(so no panic branch is reachable, and every theorem about the total model is a theorem about the
+code-shaped one), and proves that the same code with a guard deleted DOES panic (`…Old`, `…NoGuard`).
 -/
 namespace DryocVerif.Properties.C04
 open DryocVerif
@@ -273,5 +286,357 @@ theorem deFixed_never_panics (n : Nat) (enc : Model.Encoding.Enc) : Model.Encodi
 /-- resizable containers: always `Ok` of the payload -/
 theorem deHeap_never_panics (enc : Model.Encoding.Enc) : Model.Encoding.deHeap enc ≠ .panic := by
   rw [C16.deHeap_spec]; simp
+
+
+/-! # CODE-SHAPED models: every panicking Rust operation is an explicit `.panic` branch
+
+Nothing below is true by construction: each `…Raw` function can return `.panic` at every subtraction,
+addition, index, slice, `split_at`, `copy_from_slice`, `unwrap` and key-stream request of the Rust source,
+and the theorems say that the guards in front of those operations exclude it for ALL inputs. -/
+
+section StreamRaw
+open DryocVerif.Model.SecretStream
+
+/-- **`crypto_secretstream_xchacha20poly1305_pull`, statement by statement, equals the total model** for
+every state, message buffer, tag variable, ciphertext and associated data: after the two length guards
+none of `ciphertext.len() - ABYTES`, `ciphertext[0]`, `1 + mlen`, `&ciphertext[1..1 + mlen]`,
+`&ciphertext[1 + mlen..]`, `&_pad0[..n]`, the `size_data` copies, `message[..mlen].copy_from_slice(..)`,
+the `i64` padding arithmetic or the three `apply_keystream` calls can fail.  The only hypothesis is
+`ciphertext.len() ≤ MESSAGEBYTES_MAX_RAW` (≈ 256 GiB), beyond which the Rust returns `Err`
+(`pullRaw_too_long`) and the total model has no branch; no hypothesis on the message buffer is needed,
+a too small buffer is an `Err` of the function itself. -/
+theorem pullRaw_eq_pull (P : Prims) (s : State) (m : Bytes) (tagv : UInt8) (ct ad : Bytes)
+    (h : ct.length ≤ MESSAGEBYTES_MAX_RAW) : pullRaw P s m tagv ct ad = pull P s m tagv ct ad :=
+  Proofs.SecretStream.pullRaw_eq_pull P s m tagv ct ad h
+
+/-- the `MESSAGEBYTES_MAX_RAW` guard: an over-long ciphertext is an `Err` that changes nothing.  (It is this guard
+that keeps `cipher.seek(128); cipher.apply_keystream(&mut message[..mlen])` inside the 2^32-block key stream.) -/
+theorem pullRaw_too_long (P : Prims) (s : State) (m : Bytes) (tagv : UInt8) (ct ad : Bytes)
+    (h : MESSAGEBYTES_MAX_RAW < ct.length) : pullRaw P s m tagv ct ad = ⟨.err, m, tagv, s⟩ :=
+  Proofs.SecretStream.pullRaw_too_long P s m tagv ct ad h
+
+/-- **the classic `pull` as written never panics** — no hypothesis: any primitives, state, buffer (any size,
+empty included), ciphertext (any length, empty included), associated data -/
+theorem pullRaw_never_panics (P : Prims) (s : State) (m : Bytes) (tagv : UInt8) (ct ad : Bytes) :
+    (pullRaw P s m tagv ct ad).res ≠ .panic :=
+  Proofs.SecretStream.pullRaw_never_panics P s m tagv ct ad
+
+/-- **counter-model (fix E5 is load-bearing)**: the same statements without the
+`ciphertext.len() < ABYTES` guard panic in `ciphertext.len() - ABYTES` for EVERY ciphertext shorter than
+17 bytes, with nothing written; for longer ciphertexts the old code is the current code -/
+theorem pullRawOld_short_panics (P : Prims) (s : State) (m : Bytes) (tagv : UInt8) (ct ad : Bytes)
+    (h : ct.length < 17) : pullRawOld P s m tagv ct ad = ⟨.panic, m, tagv, s⟩ :=
+  Proofs.SecretStream.pullRawOld_short_panics P s m tagv ct ad h
+
+theorem pullRawOld_eq_of_long (P : Prims) (s : State) (m : Bytes) (tagv : UInt8) (ct ad : Bytes)
+    (h : 17 ≤ ct.length) : pullRawOld P s m tagv ct ad = pullRaw P s m tagv ct ad :=
+  Proofs.SecretStream.pullRawOld_eq_of_long P s m tagv ct ad h
+
+/-- **`DryocStream::pull` as written equals the total model** (guard, `len - ABYTES`, `resize`, classic
+pull, `Tag::from_bits_retain`), for ciphertexts up to `MESSAGEBYTES_MAX_RAW`; beyond: `Err` -/
+theorem objPullCode_eq_objPull (P : Prims) (s : State) (ct ad : Bytes) (h : ct.length ≤ MESSAGEBYTES_MAX_RAW) :
+    objPullCode P s ct ad = objPull P s ct ad :=
+  Proofs.SecretStream.objPullCode_eq_objPull P s ct ad h
+
+theorem objPullCode_too_long (P : Prims) (s : State) (ct ad : Bytes) (h : MESSAGEBYTES_MAX_RAW < ct.length) :
+    objPullCode P s ct ad = (.err, s) :=
+  Proofs.SecretStream.objPullCode_too_long P s ct ad h
+
+/-- **`DryocStream::pull` as written never panics** — no hypothesis -/
+theorem objPullCode_never_panics (P : Prims) (s : State) (ct ad : Bytes) :
+    (objPullCode P s ct ad).1 ≠ .panic :=
+  Proofs.SecretStream.objPullCode_never_panics P s ct ad
+
+/-- **counter-model (`Tag::from_bits(tag).expect(..)`, before the `from_bits_retain` fix)**: it panics
+exactly on the messages the current code ACCEPTS (authenticator verified) whose tag byte has a bit outside
+`MESSAGE | PUSH | REKEY | FINAL = 0b11` — and the stream state has advanced by then -/
+theorem objPullOld_panics_iff (P : Prims) (s : State) (ct ad : Bytes) :
+    (objPullOld P s ct ad).1 = .panic ↔
+      ∃ msg t st, objPullCode P s ct ad = (.ok (msg, t), st) ∧ t &&& 0xFC ≠ 0 := by
+  rw [Proofs.SecretStream.objPullOld_eq]
+  have hnp := Proofs.SecretStream.objPullCode_never_panics P s ct ad
+  rcases hr : objPullCode P s ct ad with ⟨res, st⟩
+  rw [hr] at hnp
+  cases res with
+  | ok v =>
+    rcases v with ⟨msg, t⟩
+    by_cases ht : t &&& 0xFC = 0
+    · simp [ht]
+    · simp [ht]
+  | err => simp
+  | panic => exact absurd rfl hnp
+
+/-- counter-model: `DryocStream::pull` without the length guards panics on every short ciphertext -/
+theorem objPullNoGuard_short_panics (P : Prims) (s : State) (ct ad : Bytes) (h : ct.length < 17) :
+    objPullNoGuard P s ct ad = (.panic, s) :=
+  Proofs.SecretStream.objPullNoGuard_short_panics P s ct ad h
+
+end StreamRaw
+
+section BoxRaw
+open DryocVerif.Model.SecretBox
+
+/-- **`DryocSecretBox::from_bytes` / `DryocBox::from_bytes` as written** (guard, `split_at(16)`, `try_from`)
+equal the total model on every byte string: `split_at` is in range, `try_from` gets 16 bytes -/
+theorem fromBytesRaw_eq (bs : Bytes) : fromBytesRaw bs = fromBytes bs :=
+  Proofs.SecretBox.fromBytesRaw_eq bs
+
+theorem fromBytesRaw_never_panics (bs : Bytes) : fromBytesRaw bs ≠ .panic := by
+  rw [fromBytesRaw_eq]; exact fromBytes_never_panics bs
+
+/-- counter-model: without `if bytes.len() < MACBYTES` the `split_at` panics on every short input -/
+theorem fromBytesNoGuard_short_panics (bs : Bytes) (h : bs.length < 16) : fromBytesNoGuard bs = .panic :=
+  Proofs.SecretBox.fromBytesNoGuard_short bs h
+
+/-- **`DryocBox::from_sealed_bytes` as written** (guard, `split_at(48)`, `split_at(32)`, two `try_from`) -/
+theorem fromSealedBytesRaw_eq (bs : Bytes) : fromSealedBytesRaw bs = fromSealedBytes bs :=
+  Proofs.SecretBox.fromSealedBytesRaw_eq bs
+
+theorem fromSealedBytesRaw_never_panics (bs : Bytes) : fromSealedBytesRaw bs ≠ .panic := by
+  rw [fromSealedBytesRaw_eq]; exact fromSealedBytes_never_panics bs
+
+theorem fromSealedBytesNoGuard_short_panics (bs : Bytes) (h : bs.length < 48) :
+    fromSealedBytesNoGuard bs = .panic :=
+  Proofs.SecretBox.fromSealedBytesNoGuard_short bs h
+
+end BoxRaw
+
+section SignRaw
+open DryocVerif.Model.Sign
+
+/-- **`SignedMessage::from_bytes` as written** (guard, `split_at(64)`, `try_from`) -/
+theorem signedFromBytesRaw_eq (bs : Bytes) : Model.Sign.fromBytesRaw bs = Model.Sign.fromBytes bs :=
+  Proofs.SignRaw.fromBytesRaw_eq bs
+
+theorem signedFromBytesRaw_never_panics (bs : Bytes) : Model.Sign.fromBytesRaw bs ≠ .panic := by
+  rw [signedFromBytesRaw_eq]; exact signedFromBytes_never_panics bs
+
+theorem signedFromBytesNoGuard_short_panics (bs : Bytes) (h : bs.length < 64) :
+    Model.Sign.fromBytesNoGuard bs = .panic :=
+  Proofs.SignRaw.fromBytesNoGuard_short bs h
+
+/-- **`crypto_sign_open` → `crypto_sign_ed25519_open` as written**, with the caller's message buffer `m`:
+both pairs of length checks, `split_at(64)`, `try_from(sig).unwrap()`, verification,
+`message.copy_from_slice(sm)` — equal to the total model for every buffer, signed message and key.  No caller
+fact is needed: a buffer of the wrong length is an `Err` of the function. -/
+theorem signOpenRaw_eq (H : Bytes → Bytes) (m sm pk : Bytes) :
+    signOpenRaw H m sm pk = signOpen H m.length sm pk :=
+  Proofs.SignRaw.signOpenRaw_eq H m sm pk
+
+theorem signOpenRaw_never_panics (H : Bytes → Bytes) (m sm pk : Bytes) : signOpenRaw H m sm pk ≠ .panic := by
+  rw [signOpenRaw_eq]; exact C06.signOpen_never_panics H m.length sm pk
+
+/-- counter-models: without the length checks, `split_at(64)` panics on every short input … -/
+theorem signOpenNoGuard_short_panics (H : Bytes → Bytes) (m sm pk : Bytes) (h : sm.length < 64) :
+    signOpenNoGuard H m sm pk = .panic :=
+  Proofs.SignRaw.signOpenNoGuard_short H m sm pk h
+
+/-- … and `copy_from_slice` panics on every VALID signed message if the buffer length is not the message length -/
+theorem signOpenNoGuard_wrong_buffer_panics (H : Bytes → Bytes) (m sm pk : Bytes) (h : 64 ≤ sm.length)
+    (hv : verifyDetached H (sm.take 64) (sm.drop 64) pk false = true) (hm : m.length ≠ sm.length - 64) :
+    signOpenNoGuard H m sm pk = .panic :=
+  Proofs.SignRaw.signOpenNoGuard_wrong_buffer H m sm pk h hv hm
+
+end SignRaw
+
+section MacVerify
+
+/-- **`crypto_auth_verify` (HMAC-SHA-512-256) never panics**, for every hash function with 64-byte output,
+every received MAC, message and 32-byte key (the API's `[u8; 32]`): the two bounds-checked key loops of
+`init` stay in range and the result is `Ok`/`Err` of a comparison with a 32-byte value.  (For a key longer
+than 128 bytes — not expressible through the API — the code DOES panic: `hmacVerify_long_key_panics`.) -/
+theorem hmacVerify_never_panics (H : Bytes → Bytes) (hH : ∀ x, (H x).length = 64) (mac msg key : Bytes)
+    (hk : key.length = 32) :
+    Model.Core.hmacVerify H mac msg key ≠ .panic ∧
+    ∃ c, c.length = 32 ∧ Model.Core.hmacVerify H mac msg key = if mac = c then .ok () else .err := by
+  refine ⟨Proofs.Core.hmacVerify_ne_panic H mac msg key (by omega), ?_⟩
+  obtain ⟨c, _, hc, hv⟩ := Proofs.Core.hmac_ok_length H hH key msg (by omega)
+  exact ⟨c, hc, hv mac⟩
+
+/-- non-vacuity witness: SHA-512 has 64-byte output is the intended instance; here a toy 64-byte "hash" -/
+example : Model.Core.hmacVerify (fun _ => zeros 64) (zeros 32) [1, 2, 3] (zeros 32) = .ok () := by decide
+example : Model.Core.hmacVerify (fun _ => zeros 64) (zeros 31) [1, 2, 3] (zeros 32) = .err := by decide
+
+theorem hmacVerify_long_key_panics (H : Bytes → Bytes) (mac msg key : Bytes) (hk : key.length > 128)
+    (hH : (H key).length = 64) : Model.Core.hmacVerify H mac msg key = .panic :=
+  Proofs.Core.hmacVerify_long_key_panics H mac msg key hk hH
+
+/-- **`crypto_onetimeauth_verify`** returns `Ok(())` exactly for the RFC 8439 Poly1305 tag of the message
+(32-byte key), `Err` otherwise, and nothing else -/
+theorem onetimeauthVerify_ok_iff (key msg tag : Bytes) (hk : key.length = 32) :
+    Model.Poly1305.onetimeauthVerify key msg tag = .ok () ↔ tag = Spec.Poly1305.mac key msg :=
+  Proofs.Poly1305.onetimeauthVerify_ok_iff key msg tag hk
+
+theorem onetimeauthVerify_err_iff (key msg tag : Bytes) (hk : key.length = 32) :
+    Model.Poly1305.onetimeauthVerify key msg tag = .err ↔ tag ≠ Spec.Poly1305.mac key msg :=
+  Proofs.Poly1305.onetimeauthVerify_err_iff key msg tag hk
+
+theorem onetimeauthVerify_never_panics (key msg tag : Bytes) :
+    Model.Poly1305.onetimeauthVerify key msg tag ≠ .panic :=
+  Proofs.Poly1305.onetimeauthVerify_ne_panic key msg tag
+
+end MacVerify
+
+section PwhashRaw
+open DryocVerif.Model.PwhashStr
+
+/-- **`Pwhash::parse_encoded_pwhash` as written**: the four `unwrap()`s of the final checks are explicit
+panic branches; each is protected by the `is_none() ||` in front of it -/
+theorem parseRaw_eq (s : Str) : parseRaw s = parse s := Proofs.PwhashRaw.parseRaw_eq s
+
+theorem parseRaw_never_panics (s : Str) : parseRaw s ≠ .panic := by
+  rw [parseRaw_eq]; exact C10.parse_never_panics s
+
+/-- **`crypto_pwhash_str_needs_rehash` as written** (`t_cost.unwrap()`, `m_cost.unwrap()`) -/
+theorem needsRehashRaw_eq (s : Str) (o l : Nat) : needsRehashRaw s o l = needsRehash s o l :=
+  Proofs.PwhashRaw.needsRehashRaw_eq s o l
+
+theorem needsRehashRaw_never_panics (s : Str) (o l : Nat) : needsRehashRaw s o l ≠ .panic := by
+  rw [needsRehashRaw_eq]; exact C10.needsRehash_never_panics s o l
+
+/-- **`crypto_pwhash_str_verify` as written** (six `unwrap()`s), for any Argon2 -/
+theorem strVerifyCode_eq (argon2 : Nat → Nat → Nat → Nat → Bytes → Bytes → Nat → Outcome Bytes)
+    (s : Str) (pwd : Bytes) : strVerifyCode argon2 s pwd = strVerify argon2 s pwd :=
+  Proofs.PwhashRaw.strVerifyCode_eq argon2 s pwd
+
+/-- **`crypto_pwhash_str_verify` with the project's own Argon2 model plugged in never panics**, for every
+string and password, provided the memory cost recorded in the string (if it parses at all) satisfies
+`7·(max m 8 / 4) < 2^32 + 3`, i.e. `m ≲ 2.45·10^9` KiB ≈ 2.28 TiB — the documented limit of the `u32` index
+arithmetic of `index_alpha` ("bounded cost parameters"; beyond it `C09.index_alpha_overflow_witness` shows an
+overflow).  This replaces the uninstantiated hypothesis `hA` of `strVerify_never_panics`, which the Argon2
+model does not satisfy for all parameters.  Everything else an attacker can put into the string — `t = 0`,
+`m < 8`, a salt shorter than 8 bytes, a hash of any length — is an `Err` of `Argon2Context::new`, not a panic. -/
+theorem strVerify_argon2_never_panics (s : Str) (pwd : Bytes)
+    (hm : ∀ r m, parse s = .ok r → r.m = some m → 7 * (max m 8 / 4) < 2 ^ 32 + 3) :
+    strVerify (fun ty t m p pw sa n => Model.Argon2.argon2Hash ty t m p pw sa none none n) s pwd ≠ .panic :=
+  Proofs.PwhashRaw.strVerify_argon2_ne_panic s pwd hm
+
+/-- … the same for the code-shaped verify -/
+theorem strVerifyCode_argon2_never_panics (s : Str) (pwd : Bytes)
+    (hm : ∀ r m, parse s = .ok r → r.m = some m → 7 * (max m 8 / 4) < 2 ^ 32 + 3) :
+    strVerifyCode (fun ty t m p pw sa n => Model.Argon2.argon2Hash ty t m p pw sa none none n) s pwd ≠ .panic := by
+  rw [strVerifyCode_eq]; exact strVerify_argon2_never_panics s pwd hm
+
+/-- a sufficient condition that needs no parsing: a string that parses has `m < 2^32` anyway, so it is enough
+that `m`, whatever it is, is at most 2^31 (2 TiB) -/
+theorem strVerify_argon2_never_panics_of_le (s : Str) (pwd : Bytes)
+    (hm : ∀ r m, parse s = .ok r → r.m = some m → m ≤ 2 ^ 31) :
+    strVerify (fun ty t m p pw sa n => Model.Argon2.argon2Hash ty t m p pw sa none none n) s pwd ≠ .panic := by
+  apply strVerify_argon2_never_panics
+  intro r m hp hr
+  have := hm r m hp hr
+  omega
+
+/-- non-vacuity witness for `hm`: the libsodium INTERACTIVE string shape (`m = 65536`, `t = 2`) -/
+example : ∀ r m, parse (encode .argon2id 2 65536 (zeros 16) (zeros 32)) = .ok r → r.m = some m →
+    7 * (max m 8 / 4) < 2 ^ 32 + 3 := by
+  intro r m hp hr
+  rw [C10.parse_encode .argon2id 2 65536 (zeros 16) (zeros 32) (by decide) (by decide) (by decide) (by decide)] at hp
+  cases hp
+  cases hr
+  decide
+
+/-- … and for strings that do not parse `hm` holds trivially and the result is `Err` -/
+example : strVerify (fun ty t m p pw sa n => Model.Argon2.argon2Hash ty t m p pw sa none none n)
+    "$argon2x$v=19$m=1,t=1,p=1$AA$AA".toList [1, 2, 3] = .err := by decide
+
+end PwhashRaw
+
+section SerdeRaw
+open DryocVerif.Model.Encoding
+
+/-- **the fixed-length serde visitors as written** (`StackByteArray<N>`, `Locked<HeapByteArray<N>>`):
+`arr[idx] = elem` and `idx += 1` are checked operations, `visit_bytes` ends in `copy_from_slice`; equal to the
+total model for every encoding.  `N < 2^64` is a fact about the type (`const LENGTH: usize`). -/
+theorem deFixedRaw_eq (n : Nat) (hn : n < 2 ^ 64) (enc : Enc) : deFixedRaw n enc = deFixed n enc :=
+  Proofs.EncodingRaw.deFixedRaw_eq n hn enc
+
+theorem deFixedRaw_never_panics (n : Nat) (hn : n < 2 ^ 64) (enc : Enc) : deFixedRaw n enc ≠ .panic := by
+  rw [deFixedRaw_eq n hn]; exact C16.deFixed_never_panics n enc
+
+/-- **the resizable serde visitors as written** (`HeapBytes`, `LockedBytes`): `resize(idx + 1, 0); arr[idx] = elem`,
+for every encoding with fewer than 2^64 elements (more do not fit a `Vec`) -/
+theorem deHeapRaw_eq (enc : Enc) (h : enc.payload.length < 2 ^ 64) : deHeapRaw enc = deHeap enc :=
+  Proofs.EncodingRaw.deHeapRaw_eq enc h
+
+theorem deHeapRaw_never_panics (enc : Enc) (h : enc.payload.length < 2 ^ 64) : deHeapRaw enc ≠ .panic := by
+  rw [deHeapRaw_eq enc h]; exact deHeap_never_panics enc
+
+/-- non-vacuity witnesses, and the counter-models: a 3-element sequence into a 2-byte array is an `Err`; without
+the `idx >= LENGTH` check `arr[2] = elem` panics; the heap visitor before its fix indexed past the end on the
+second element of a JSON array (no size hint) -/
+example : deFixedRaw 2 (.seq [1, 2]) = .ok [1, 2] ∧ deFixedRaw 2 (.seq [1, 2, 3]) = .err ∧
+    deFixedNoGuard 2 (.seq [1, 2, 3]) = .panic ∧ deFixedNoGuard 2 (.bytes [1, 2, 3]) = .panic := by decide
+example : deHeapRaw (.seq [1, 2, 3]) = .ok [1, 2, 3] ∧ deHeapOld none (.seq [1, 2, 3]) = .panic ∧
+    deHeapOld none (.seq []) = .ok [0] := by decide
+
+end SerdeRaw
+
+/-! ## witnesses: one per family (all by kernel evaluation) -/
+
+section Witnesses
+open DryocVerif.Model.SecretStream DryocVerif.Proofs.SecretStream
+
+/-- a 3-byte "ciphertext": the current code rejects it, the code before fix E5 panics -/
+example : pullRaw toyPrims toyState (zeros 8) 7 [1, 2, 3] [] = ⟨.err, zeros 8, 7, toyState⟩ := by decide
+example : pullRawOld toyPrims toyState (zeros 8) 7 [1, 2, 3] [] = ⟨.panic, zeros 8, 7, toyState⟩ := by decide
+example : objPullCode toyPrims toyState [] [] = (.err, toyState) := by decide
+example : objPullNoGuard toyPrims toyState [] [] = (.panic, toyState) := by decide
+
+/-- an AUTHENTIC message (produced by `DryocStream::push`) with tag byte 0xff: the current `pull`, code-shaped
+and total, returns it with the tag retained; the `from_bits(..).expect` version panics after advancing the state -/
+example : (toyPushed 0xff).1 = [164, 29, 30, 31, 32, 26, 0, 0, 0, 0, 0, 0, 0, 0, 0, 0, 0, 0, 0, 0] := by decide
+example : objPullCode toyPrims toyState (toyPushed 0xff).1 [] = (.ok ([0x41, 0x42, 0x43], 0xff), (toyPushed 0xff).2) := by
+  decide
+example : objPull toyPrims toyState (toyPushed 0xff).1 [] = (.ok ([0x41, 0x42, 0x43], 0xff), (toyPushed 0xff).2) := by
+  decide
+example : objPullOld toyPrims toyState (toyPushed 0xff).1 [] = (.panic, (toyPushed 0xff).2) := by decide
+example : (toyPushed 0xff).2 ≠ toyState := by decide
+/-- with a named tag (`FINAL = 3`) the old code agreed with the current one -/
+example : objPullOld toyPrims toyState (toyPushed 3).1 [] = (.ok ([0x41, 0x42, 0x43], 3), (toyPushed 3).2) := by decide
+/-- a tampered ciphertext byte, and a too small message buffer in the classic form: `Err`, nothing changes -/
+example : objPullCode toyPrims toyState ((toyPushed 0xff).1.set 2 0) [] = (.err, toyState) := by decide
+example : pullRaw toyPrims toyState [0, 0] 7 (toyPushed 0xff).1 [] = ⟨.err, [0, 0], 7, toyState⟩ := by decide
+
+open DryocVerif.Model.SecretBox in
+example : fromBytesRaw (zeros 15) = .err ∧ fromBytesNoGuard (zeros 15) = .panic ∧
+    fromBytesRaw (zeros 16 ++ [7]) = .ok ⟨none, zeros 16, [7]⟩ := by decide
+open DryocVerif.Model.SecretBox in
+example : fromSealedBytesRaw (zeros 47) = .err ∧ fromSealedBytesNoGuard (zeros 47) = .panic ∧
+    fromSealedBytesRaw (zeros 32 ++ List.replicate 16 1 ++ [7]) = .ok ⟨some (zeros 32), List.replicate 16 1, [7]⟩ := by
+  decide
+example : Model.Sign.fromBytesRaw (zeros 63) = .err ∧ Model.Sign.fromBytesNoGuard (zeros 63) = .panic := by decide
+
+open DryocVerif.Model.Sign DryocVerif.Proofs.SignVectors in
+/-- RFC 8032 TEST 1 (empty message): accepted into an empty buffer; with a 1-byte buffer the current code
+answers `Err`, the code without length checks panics in `copy_from_slice` -/
+example : signOpenRaw Spec.Sha512.sha512 [] tvSig tvPk = .ok [] ∧
+    signOpenRaw Spec.Sha512.sha512 [0] tvSig tvPk = .err ∧
+    signOpenNoGuard Spec.Sha512.sha512 [0] tvSig tvPk = .panic := by
+  have e1 : tvSig.take 64 = tvSig := by decide
+  have e2 : tvSig.drop 64 = [] := by decide
+  refine ⟨?_, ?_, ?_⟩
+  · rw [Proofs.SignRaw.signOpenRaw_eq]
+    unfold signOpen
+    rw [if_neg (by decide), if_neg (by decide), e1, e2, tv_verify]
+    rfl
+  · rw [Proofs.SignRaw.signOpenRaw_eq]
+    exact C06.signOpen_wrong_buffer _ _ _ _ (by decide)
+  · exact Proofs.SignRaw.signOpenNoGuard_wrong_buffer _ _ _ _ (by decide) (by rw [e1, e2]; exact tv_verify) (by decide)
+open DryocVerif.Model.Sign in
+example : signOpenRaw (fun _ => []) [] (zeros 10) (zeros 32) = .err ∧
+    signOpenNoGuard (fun _ => []) [] (zeros 10) (zeros 32) = .panic := by decide
+
+open DryocVerif.Model.PwhashStr in
+/-- malformed password-hash strings: `Err` from the code-shaped parser; with the `is_none()` guards deleted the
+first `unwrap()` panics -/
+example : parseRaw [] = .err ∧ parseNoGuard [] = .panic := by decide
+open DryocVerif.Model.PwhashStr in
+example : parseRaw "$argon2id$v=19$m=65536,t=2$AAAAAAAAAAA$AAAA".toList = .err ∧
+    parseNoGuard "$argon2id$v=19$m=65536,t=2$AAAAAAAAAAA$AAAA".toList = .panic := by decide
+open DryocVerif.Model.PwhashStr in
+example : needsRehashRaw "$$$".toList 2 67108864 = .err := by decide
+
+end Witnesses
 
 end DryocVerif.Properties.C04
